@@ -76,8 +76,15 @@ def xproc_strategy(draw):
     # terminal numbers: inside the range of the lock file, its first, its last
     addresses = draw(st.sampled_from([[1003, 1004], [1003, 1004], [1000, 1015],
                                       [1015, 1000], [1015, 1014]]))
-    return {"kind": "xproc", "participants": parts, "addresses": addresses,
+    case = {"kind": "xproc", "participants": parts, "addresses": addresses,
             "chunks": [list(c) for c in chunks]}
+    if draw(st.integers(0, 3)) == 0:
+        # the default range of the library, terminals far apart in it
+        case["range_end"] = 30000
+        case["addresses"] = draw(st.sampled_from(
+            [[1000, 5096], [1003, 9195], [29999, 1000], [1256, 1000],
+             [1000, 17384]]))
+    return case
 
 
 def enumerate_cases(tier):
@@ -173,7 +180,8 @@ def run_xproc(case):
         async def participant(pid):
             script = case["participants"][pid]
             try:
-                lf = lockmod.LockFile("/run/ebpf/vf0", 1000, 1016)
+                lf = lockmod.LockFile("/run/ebpf/vf0", 1000,
+                                      case.get("range_end", 1016))
             except Exception as e:
                 errors[pid] = f"LockFile: {type(e).__name__}: {e}"
                 return
@@ -266,7 +274,8 @@ def run_xproc(case):
     classes = ["cross-process", f"processes={n}"] + (
         ["two-tasks-in-a-process"] if multi_task else []) + (
         ["first-or-last-terminal-of-the-range"]
-        if set(case.get("addresses", [])) & {1000, 1015} else [])
+        if set(case.get("addresses", [])) & {1000, 1015} else []) + (
+        ["full-range-lock-file"] if case.get("range_end") else [])
 
     def fail(what, facts=()):
         return dict(ok=False, nontrivial=True, classes=classes,
